@@ -11,6 +11,7 @@ import RosuModel.Model.Cmds.Timing
 import RosuModel.Model.Cmds.Sections
 import RosuModel.Model.Cmds.HitObj
 import RosuModel.Model.Cmds.Events
+import RosuModel.Model.Cmds.Whole
 namespace Rosu
 
 def dispatch (toks : List String) : String :=
@@ -24,6 +25,7 @@ def dispatch (toks : List String) : String :=
     |>.orElse (fun _ => dispatchSections toks)
     |>.orElse (fun _ => dispatchHitObj toks)
     |>.orElse (fun _ => dispatchEvents toks)
+    |>.orElse (fun _ => dispatchWhole toks)
     ).getD "bad-request"
 
 end Rosu
